@@ -51,3 +51,30 @@ package main
 //@   loop 2 invariant[written-in-time-order] forall(0, len(entries)-1, func(j int) bool { return entries[j].T <= entries[j+1].T })
 //@   loop 2 invariant rangeindex+1 <= len(entries)
 //@   loop 2 body_ensures[one-write-per-entry] w_called && w_r1 == nil
+
+//@ scope query.go
+
+// ---- C16: the resolved range, step and limit are what the engine is asked to evaluate.
+//@ func queryCmd$1
+//@   capture tr = call(parseTimeRange, 0)
+//@   capture ps = call(parseStep, 0)
+//@   capture ev = call(eng.Eval, 0)
+//@   ensures[step-over-the-resolved-range] ps_called ==> tr_called && tr_r2 == nil && ps_a1 == tr_r0 && ps_a2 == tr_r1
+//@   ensures[engine-after-successful-resolution] ev_called ==> tr_called && tr_r2 == nil && ps_called && ps_r1 == nil
+//@   ensures[engine-gets-the-query] ev_called ==> ev_a1 == old(args[0])
+//@   ensures[engine-gets-the-resolved-start] ev_called ==> ev_a2.Start == pcommon.NewTimestampFromTime(tr_r0)
+//@   ensures[engine-gets-the-resolved-end] ev_called ==> ev_a2.End == pcommon.NewTimestampFromTime(tr_r1)
+//@   ensures[engine-gets-the-resolved-step] ev_called ==> ev_a2.Step == ps_r0
+//@   ensures[engine-gets-the-limit] ev_called ==> ev_a2.Limit == before(ev_called, limit)
+//@   ensures[errors-surface] (tr_called && tr_r2 != nil) || (ps_called && ps_r1 != nil) || (ev_called && ev_r1 != nil) ==> ret0 != nil
+
+//@ scope color.go
+
+// ---- C15: every palette name has a colour (so every container gets one, whatever their number).
+//@ func ansi
+//@   modifies nothing
+//@ func init$1
+//@   ensures[every-name-has-a-colour] forall(0, len(names), func(j int) bool { return has(ret0, names[j]) })
+//@   loop 0 modifies m[*]
+//@   loop 0 invariant m != nil && fresh(m) && rangeindex+1 <= len(names)
+//@   loop 0 invariant forall(0, rangeindex+1, func(j int) bool { return has(m, names[j]) })
